@@ -70,6 +70,35 @@ func (p para) html() string {
 	return b.String()
 }
 
+// longest word in glyphs
+func (p para) longest() int {
+	m := 0
+	for _, t := range p.toks {
+		if t.k == tWord && t.n > m {
+			m = t.n
+		}
+	}
+	return m
+}
+
+func (p para) hasLeftEdge() bool {
+	for _, t := range p.toks {
+		if t.k == tOpen && t.n > 0 {
+			return true
+		}
+	}
+	return false
+}
+
+func (p para) hasBr() bool {
+	for _, t := range p.toks {
+		if t.k == tBr {
+			return true
+		}
+	}
+	return false
+}
+
 func (p para) key() string {
 	var b strings.Builder
 	for _, t := range p.toks {
@@ -104,6 +133,8 @@ func (p para) total(g int) int {
 
 type genOpts struct {
 	spans, atoms, brs bool
+	leftEdges         bool // spans may have a non-zero start edge (defect domain KF11-2)
+	spBr              bool // a space may directly precede <br> (defect domain KF11-1)
 	maxLeaves         int
 	maxWord           int
 }
@@ -118,19 +149,8 @@ type gen struct {
 	lastSpace bool // the last non-edge token is a space (a further space would be collapsed by box building)
 	leaves    int
 	depth     int
-}
-
-func (g *gen) edge() (css string, w int) {
-	var parts []string
-	pick := func(name string, vals ...int) {
-		v := rng.Pick(g.r, vals...)
-		if v != 0 {
-			w += v
-			parts = append(parts, fmt.Sprintf(name, v))
-		}
-	}
-	_ = pick
-	return strings.Join(parts, ";"), w
+	// since the start of the paragraph / the last <br>: no leaf yet, and an inline box was opened
+	noLeaf, openSinceBreak bool
 }
 
 // content generates a sequence of inline-level things; top=false inside a span
@@ -143,18 +163,29 @@ func (g *gen) content(n int) {
 			if g.r.P(1, 3) {
 				k = g.r.Range(1, 3)
 			}
-			g.toks = append(g.toks, tok{k: tWord, n: k, html: strings.Repeat("x", k)})
+			if n := len(g.toks); n > 0 && g.toks[n-1].k == tWord {
+				// two adjacent words of one text node are one word
+				k = min(k, 12-min(12, g.toks[n-1].n))
+				g.toks[n-1].n += k
+				g.toks[n-1].html += strings.Repeat("x", k)
+			} else {
+				g.toks = append(g.toks, tok{k: tWord, n: k, html: strings.Repeat("x", k)})
+				g.leaves++
+			}
 			g.lastSpace = false
-			g.leaves++
+			g.noLeaf = false
 		case c < 70:
-			if !g.lastSpace {
+			// (a space that opens an inline box at the start of a line makes the code drop the box's start
+			// edge: `<p><span style="margin-left:7px"> x` -- not generated, reported separately)
+			if !g.lastSpace && !(g.noLeaf && g.openSinceBreak) {
 				g.toks = append(g.toks, tok{k: tSpace, html: rng.Pick(g.r, spaceTexts...)})
 				g.lastSpace = true
 			}
 		case c < 78:
-			if g.o.brs {
+			if g.o.brs && (g.o.spBr || !g.lastSpace) {
 				g.toks = append(g.toks, tok{k: tBr, html: "<br>"})
 				g.lastSpace = false
+				g.noLeaf, g.openSinceBreak = true, false
 			}
 		case c < 88:
 			if g.o.atoms {
@@ -164,21 +195,36 @@ func (g *gen) content(n int) {
 				g.toks = append(g.toks, tok{k: tAtom, n: w + ml + mr, h: h,
 					html: fmt.Sprintf(`<i style="display:inline-block;width:%dpx;height:%dpx;margin-left:%dpx;margin-right:%dpx"></i>`, w, h, ml, mr)})
 				g.lastSpace = false
+				g.noLeaf = false
 				g.leaves++
 			}
 		default:
 			if g.o.spans && g.depth < 3 {
 				ml, bl, pl := rng.Pick(g.r, 0, 0, 3, g.g/2, g.g), rng.Pick(g.r, 0, 0, 1, 2), rng.Pick(g.r, 0, 0, 4, g.g/2)
+				if !g.o.leftEdges {
+					ml, bl, pl = 0, 0, 0
+				}
+				if g.noLeaf {
+					g.openSinceBreak = true
+				}
 				mr, br, pr := rng.Pick(g.r, 0, 0, 3, g.g/2, g.g), rng.Pick(g.r, 0, 0, 1, 2), rng.Pick(g.r, 0, 0, 4, g.g/2)
 				st := fmt.Sprintf("margin:0 %dpx 0 %dpx;border:solid;border-width:0 %dpx 0 %dpx;padding:0 %dpx 0 %dpx", mr, ml, br, bl, pr, pl)
 				g.toks = append(g.toks, tok{k: tOpen, n: ml + bl + pl, html: `<span style="` + st + `">`})
 				before := g.leaves
 				g.depth++
 				g.content(g.r.Range(1, 5))
-				if g.leaves == before { // never an empty span
+				endsWithBr := false
+				for i := len(g.toks) - 1; i >= 0; i-- {
+					if k := g.toks[i].k; k != tSpace && k != tClose {
+						endsWithBr = k == tBr
+						break
+					}
+				}
+				if g.leaves == before || endsWithBr { // never an empty span, never a <br> as last thing of a span
 					k := g.r.Range(1, 4)
 					g.toks = append(g.toks, tok{k: tWord, n: k, html: strings.Repeat("x", k)})
 					g.lastSpace = false
+					g.noLeaf = false
 					g.leaves++
 				}
 				g.depth--
@@ -193,6 +239,7 @@ func genPara(r *rng.R, o genOpts, glyph int) para {
 	for g.leaves == 0 {
 		g.toks = nil
 		g.lastSpace = false
+		g.noLeaf, g.openSinceBreak = true, false
 		g.content(r.Range(1, 2*o.maxLeaves))
 	}
 	return para{toks: g.toks}
